@@ -105,7 +105,7 @@ claim('C16', 'taint analysis with certified sanitizers (regexp/syntax certificat
       'DirEntry type, and conversely every way through the listing callback records the name of an entry that is a real directory other than the root, and the callback answers fs.SkipDir only for a directory and never fs.SkipAll (no plugin directory is dropped from the listing), and a walk error other than not-exist is handed back: a failed walk is never reported as a complete listing. Holds for every name string at once; also analysed under GOOS=windows in the thorough tier. What the OS does with a validated single component is trusted.', 'DESIGN.md 2/C16')
 claim('C17', 'typestate of the exec.Cmd object (dominating unconditional stores) + must-check gates + guarded error-mapping table + who-may-call',
       'Static: decides the structural preconditions of containment — the only process start is exec.CommandContext with the caller\'s context; before Run, unconditionally, Stdout and Stderr are the module\'s limited writer with a positive constant cap, WaitDelay is a positive constant '
-      'and Stdin is the request; the limited writer forwards only with a positive remaining budget, at most that budget, and accounts every forwarded byte (remaining counter or written counter); the runner succeeds only on process success and a whole-buffer json.Unmarshal of stdout; the three failure mappings and all metadata gates (incl. name == plugin name) are fail-closed, and every failing exit of the process runner after Run hands on the captured stderr (Bytes() of the buffer behind cmd.Stderr) so that the structured error the plugin printed can be reported. '
+      'and Stdin is the request; the limited writer forwards only with a positive remaining budget, at most that budget, and accounts every forwarded byte (remaining counter or written counter); the runner succeeds only on process success and a whole-buffer json.Unmarshal of stdout; the three failure mappings and all metadata gates (incl. name == plugin name) are fail-closed, and every failing exit of the process runner after Run hands on the captured stderr (Bytes() of the buffer behind cmd.Stderr) so that the structured error the plugin printed can be reported; the runner\'s call tree performs no operation os/exec does not bound (no pipe of its own, no Read/Write on files or reader/writer interfaces, no io.Copy family, no sleep, no bare channel receive, no select without the context\'s Done channel); a one-step helper that runs the command it is handed stands for Run when its success lies behind the nil result of the run. '
       'NOT decided: real timing and memory, which follow from os/exec semantics (trusted).', 'DESIGN.md 2/C17')
 
 claim('C18', 'must-check gates per success exit (composed through helpers, parameter-substituted) + per-iteration loop gates + returned-value provenance + request-field stores + decision tables',
